@@ -151,7 +151,7 @@ pipeline:
 """
 
 
-def launch_trace(rnd, fail_at: int | None, to_file: bool):
+def launch_trace(rnd, fail_at: int | None, to_file: bool, launch_id=None, attempt=None):
     nruns = rnd.randrange(1, 5)
     values = [float(i + 1) for i in range(nruns)]
     divisors = [1.0 + i for i in range(nruns)]
@@ -162,7 +162,10 @@ def launch_trace(rnd, fail_at: int | None, to_file: bool):
         if not to_file:
             out.mkdir()
         (d / "cfg.yaml").write_text(LAUNCH_YAML.format(trace=str(out), mode="by_position", values=values, divisors=divisors))
-        code, so, se = rt.cli(["run", str(d / "cfg.yaml"), "--run-space-launch-id", f"launch-{rnd.randrange(10**9)}"], cwd=d)
+        args = ["run", str(d / "cfg.yaml"), "--run-space-launch-id", launch_id or f"launch-{rnd.randrange(10**9)}"]
+        if attempt is not None:
+            args += ["--run-space-attempt", str(attempt)]
+        code, so, se = rt.cli(args, cwd=d)
         files = rt.read_trace_files(out)
     recs = [r for f in sorted(files) for r in files[f]]
     return recs, files, {"runs": nruns, "fail_at": fail_at, "exit": code, "to_file": to_file, "stderr": se[-200:]}
@@ -269,6 +272,16 @@ def run(tier: str) -> int:
         fail_at = None if i % 2 == 0 else rnd.randrange(0, 3)
         recs, files, info = launch_trace(rnd, fail_at, to_file=(i % 4 >= 2))
         traces.append({"kind": "launch", "records": recs, "files": files, "info": info})
+    # a retried launch: two attempts under one launch id in one record set (the first cut short like a crash, or failing)
+    for i in range(2 if tier == "quick" else 6):
+        lid = f"retried-{rnd.randrange(10**9)}"
+        r1, f1, i1 = launch_trace(rnd, rnd.choice([None, 0, 1]), to_file=False, launch_id=lid, attempt=1)
+        r2, f2, i2 = launch_trace(rnd, None, to_file=False, launch_id=lid, attempt=2)
+        if rnd.random() < 0.6 and len(r1) > 3:
+            r1 = r1[:rnd.randrange(2, len(r1))]
+        order = r1 + r2 if i % 2 == 0 else r2 + r1
+        traces.append({"kind": "launch", "records": order, "files": None, "info": {"retry": True, "attempt1": i1, "attempt2": i2, "exit": 0}})
+    n_launch += 2 if tier == "quick" else 6
 
     stats = {"traces": len(traces), "single": n_single, "launch": n_launch, "record_sets": 0, "prefixes": 0, "permutations": 0,
              "subsets": 0, "interleavings": 0, "records_total": sum(len(t["records"]) for t in traces),
@@ -518,7 +531,7 @@ def check_prefix(rep, t, recs, k, runs, launches):
                               "the verdict of a trace prefix is not the documented one: " + what[1],
                               {"trace": t["info"], "prefix_len": k, "records": pre, "verdict": repr(v)})
     for (l, at) in launches:
-        mine = [r for r in pre if r.get("run_space_launch_id") == l]
+        mine = [r for r in pre if r.get("run_space_launch_id") == l and int(r.get("run_space_attempt", 1) or 1) == at]
         if not mine:
             continue
         v = a.finalize_launch(l, at)
